@@ -101,6 +101,7 @@ func TestPropHealthyConn(t *testing.T) {
 		n := rapid.IntRange(1, maxLines).Draw(t, "nlines")
 		var handed []lineT
 		longer, shorter, paused := false, false, false
+		flushes := 0
 		t0 := time.Now()
 		for i := 0; i < n; i++ {
 			var l int
@@ -128,6 +129,12 @@ func TestPropHealthyConn(t *testing.T) {
 				shorter = true
 			}
 			x.Hand([]byte(ln.text))
+			if rapid.IntRange(0, 24).Draw(t, "manualFlush") == 0 {
+				// a flush on request (what Shutdown does first, and Destination.Flush) while lines may still be queued in
+				// front of the writer: whatever it writes out must be the same records, in the same framing
+				x.D.Flush()
+				flushes++
+			}
 			if rapid.IntRange(0, 19).Draw(t, "pause") == 0 {
 				time.Sleep(time.Duration(rapid.IntRange(1, 3).Draw(t, "pauseMs")) * flush / 2)
 				paused = true
@@ -215,7 +222,7 @@ func TestPropHealthyConn(t *testing.T) {
 		}
 		nt := longer && shorter && (paused || time.Since(t0) > flush)
 		rec.Case(fmt.Sprintf("iobuf=%d connbuf=%d flush=%s pickle=%v n=%d lens=%v", iobuf, connbuf, flush, pickle, n, lens(handed)), nt,
-			fmt.Sprintf("pickle=%v", pickle), fmt.Sprintf("dropped>0=%v", missing > 0), fmt.Sprintf("iobuf=%d", iobuf))
+			fmt.Sprintf("pickle=%v", pickle), fmt.Sprintf("dropped>0=%v", missing > 0), fmt.Sprintf("iobuf=%d", iobuf), fmt.Sprintf("manual-flush-mid-stream=%v", flushes > 0))
 		rec.Num("lines_handed", int64(nHanded))
 		rec.Num("lines_dropped_slow_conn", int64(missing))
 	})
